@@ -510,3 +510,31 @@ def size_writers(run, R="RNG"):
                   "%s declares a BigInt width (%s): audited -- %s" % (w, "/".join(sorted(set(k for k, _ in writers[w]))), audited.get(w, "")),
                   "%s declares the width of a BigInt (%s) but is not an audited writer: `#dN`, typed parameters and `@` trust a declared width, so a width the value does not fit cuts bits silently" % (w, "/".join(sorted(set(k for k, _ in writers[w])))))
     run.floor(R, "BigInt width writers", len(writers), 13)
+
+
+def constrained_value_tested(run, R="RNG"):
+    """the answer of the argument range check decides the candidate whether or not the production reads the parameter: wherever
+    `check_and_constrain_argument` is called, its value is asked `should_propagate()` (a failed constraint propagates) and is bound
+    to a parameter (`set_local`) only on the `does not propagate` edge"""
+    import tables as T
+    from rules_tab import value_depends_on
+    n = 0
+    for f in run.prog.real_fns():
+        for bi, t in f.calls():
+            if not (t.get("resolved") or t.get("callee") or "").endswith("instruction::check_and_constrain_argument"):
+                continue
+            n += 1
+            dl = t["dest"]["l"]
+            tests = []
+            for b2, t2 in f.calls():
+                if (t2.get("resolved") or t2.get("callee") or "").endswith("Value::should_propagate") and any(value_depends_on(f, a, dl) for a in t2["args"]):
+                    bt = T.bool_test(f, t2)
+                    if bt:
+                        tests.append(bt)
+            binds = [(b2, t2) for b2, t2 in f.calls() if re.search(r"EvalContext::set_local", t2.get("callee") or "") and any(value_depends_on(f, a, dl) for a in t2["args"])]
+            ok = bool(tests) and bool(binds) and all(any(f.edge_dominates(sb, fe, b2) for te, fe, sb in tests) for b2, _ in binds)
+            root = f.raw.get("root") or f.id
+            run.check(ok, R, "%s|constrained-value-tested|%s" % (R, root.split("::")[-1]), f.loc(t["span"]),
+                      "%s: the range check's answer is tested before it is bound to the parameter (%d binding(s))" % (root.split("::")[-1], len(binds)),
+                      "%s binds the answer of the range check to the parameter without looking at it (no `should_propagate` test before `set_local`): an out-of-range argument is accepted whenever the production does not read the parameter - `nop {x: u8} => 0x00` assembles `nop 300`" % root.split("::")[-1])
+    run.floor(R, "calls of check_and_constrain_argument", n, 1)
